@@ -95,13 +95,20 @@ def run(chk, tier, seed):
     def one(arg):
         k, progs = arg
         e = enc(progs)
-        par = C.run_harness(binary, ["p conc par %s" % e], timeout=150).get("p", "MISSING")
-        seq = C.run_harness(binary, ["s conc seq %s" % e], timeout=150).get("s", "MISSING")
-        hk = C.run_harness(hook_bin, ["h conc par %s" % e], timeout=150).get("h", "MISSING") if hook_bin else ""
+        par = C.run_harness(binary, ["p conc par %s" % e], timeout=60).get("p", "MISSING")
+        seq = C.run_harness(binary, ["s conc seq %s" % e], timeout=60).get("s", "MISSING")
+        hk = C.run_harness(hook_bin, ["h conc par %s" % e], timeout=60).get("h", "MISSING") if hook_bin else ""
         return k, par, seq, hk
 
+    # in batches: once a few runs have hung there is no point in waiting for the watchdog another hundred times
+    results, todo = [], list(enumerate(cases))
     with ThreadPoolExecutor(max_workers=4) as ex:
-        results = list(ex.map(one, list(enumerate(cases))))
+        while todo:
+            batch, todo = todo[:8], todo[8:]
+            results += list(ex.map(one, batch))
+            if sum(1 for r in results if r[1].startswith("HANG") or r[3].startswith("HANG")) >= 3:
+                chk.info.append("stopped after %d of %d cases: several runs hung" % (len(results), len(cases)))
+                break
     terms = []
     nops = nthreads = nevents = 0
     sizes = {}
@@ -148,7 +155,8 @@ def run(chk, tier, seed):
         chk.distinct.add(tuple(tuple(p) for p in progs))
     # shared connection
     shared = []
-    for n, m in ([(2, 50), (8, 200), (16, 100)] if tier == "quick" else [(2, 50), (4, 500), (8, 1000), (16, 500), (32, 200), (64, 50)]):
+    hung = sum(1 for r in results if r[1].startswith("HANG") or r[3].startswith("HANG")) >= 3
+    for n, m in ([] if hung else [(2, 50), (8, 200), (16, 100)] if tier == "quick" else [(2, 50), (4, 500), (8, 1000), (16, 500), (32, 200), (64, 50)]):
         for b, nm in ((binary, "plain"), (hook_bin, "hooked")):
             if not b:
                 continue
